@@ -602,6 +602,14 @@ impl VLog {
 			let mut writer = self.writer.write();
 
 			if writer.is_none() || writer.as_ref().unwrap().size() >= self.max_file_size {
+				// The file that is rotated out gets no more writes, and `sync()` only
+				// ever reaches the active writer: make it durable now. Its entries are
+				// about to be referenced by a table whose flush deletes the WAL
+				// segment that still holds the values.
+				if let Some(old_writer) = writer.as_mut() {
+					old_writer.sync()?;
+				}
+
 				// Create new file
 				let file_id = self.next_file_id.fetch_add(1, Ordering::SeqCst);
 				let file_path = self.vlog_file_path(file_id);
